@@ -47,9 +47,9 @@ PROPS["C18"] = {
     "units": ["http_header_map", "http_header_map_iter"],
     "kani": [],
     "technique": "Verus contracts on the extracted real HeaderMap over an abstract view Map<name, Seq<value>> with representation invariant (no empty value list) and whole-view postconditions",
-    "level_text": "deductive proof, for every map state and argument, that insert/append/remove/clear/get/contains_key/len_keys/is_empty transform the abstract multimap exactly as a reference multimap would (all other keys unchanged, order within a name preserved), preserve the representation invariant, that the Removed iterator yields the old values in order with an exact size hint; that Iter / Drain / IntoIter::next yield exactly the pending (name, value) pairs in insertion order within a name, keep `remaining` equal to the number of pairs still owed (exact size_hint) and terminate; every operation history is covered by induction over the invariant",
+    "level_text": "deductive proof, for every map state and argument, that insert/append/remove/clear/get/contains_key/len_keys/is_empty transform the abstract multimap exactly as a reference multimap would (all other keys unchanged, order within a name preserved), preserve the representation invariant, that the Removed iterator yields the old values in order with an exact size hint; that Iter / Drain / IntoIter::next yield exactly the pending (name, value) pairs in insertion order within a name, keep `remaining` equal to the number of pairs still owed (exact size_hint) and terminate; every operation history is covered by induction over the invariant; that HeaderMap::from_drain (From<http::HeaderMap>) builds exactly the multimap the drain protocol describes (a value without a name belongs to the most recently named header; order within a name preserved)",
     "level_note": "assumes vstd's std HashMap specification (incl. entry API), the SmallVec shim (Vec-like), HeaderName obeys the hash key model and is already lower-cased by the http crate (case-insensitivity rests on that); closures (retain, Removed::new) are external_body with assumed contracts",
-    "not_decided": ["HeaderMap::from_drain / From<http::HeaderMap> (Iterator::fold with a closure that moves the accumulator: outside Verus' subset; seeded change C18-B is NOT detected)", "HeaderMap::len / retain (closures) and the `remaining` value the iterator constructors compute from len()", "Keys iterator (delegates to hash_map::Keys)", "case-insensitive comparison: delegated to http::HeaderName normalisation (dependency)"],
+    "not_decided": ["HeaderMap::len / retain (closures) and the `remaining` value the iterator constructors compute from len()", "Keys iterator (delegates to hash_map::Keys)", "case-insensitive comparison: delegated to http::HeaderName normalisation (dependency)"],
     "assumptions": [],
 }
 
